@@ -74,3 +74,9 @@ Proof.
     rewrite forallb_forall in H2. specialize (H2 _ Hf). simpl in H2.
     rewrite forallb_forall in H2. apply memb_In. auto.
 Qed.
+
+Lemma reach_in_keys l r a : wf_heap l r = true -> reach (heap_of l) r a -> In a (keys l).
+Proof.
+  intros Hwf. destruct (wf_heap_closed l r Hwf) as [Hr Hcl]. induction 1 as [|a o t ks b Ha IH Ho Hf Hk]; auto.
+  destruct (Hcl a IH) as [o' [Ho' Hk']]. rewrite Ho in Ho'. inversion Ho'; subst o'. eauto.
+Qed.
